@@ -1565,6 +1565,125 @@ func (w *world) opMigrate() {
 	w.migrate(fromID, fromAddr, to, signer, order, sig, mode)
 }
 
+const idFeeCollector = 903
+
+// opMigrateTx: a migration delivered as a signed transaction in a real block — FinalizeBlock: baseapp's ValidateBasic (the
+// pair signature), the ante handler (the transaction must be signed by the source's account key; the fee is deducted from
+// the source BEFORE the migration moves its balances), the message router and handler, then the end blockers of that very
+// block.  Op line `txblock dt fee txsigner from to pair-signer order`: the model composes fee payment, migration and block.
+func (w *world) opMigrateTx(dt int64) {
+	var srcs, eths []*actor
+	for _, a := range w.actors {
+		if a.priv != nil && a.vest == nil && a.id != 6 && !a.dual { // (the ante handler wants the public key to hash to the address: not so for the dual accounts)
+			srcs = append(srcs, a)
+		}
+		if a.eth != nil {
+			eths = append(eths, a)
+		}
+	}
+	from := hx.Pick(w.rng, srcs)
+	for i := 0; i < 8 && w.gone[from.id] && w.rng.Intn(4) > 0; i++ {
+		from = hx.Pick(w.rng, srcs)
+	}
+	to := hx.Pick(w.rng, eths)
+	for i := 0; i < 8 && (w.gone[to.id] || to.id == from.id) && (to.id == from.id || w.rng.Intn(4) > 0); i++ {
+		to = hx.Pick(w.rng, eths)
+	}
+	if to.id == from.id {
+		return
+	}
+	txSigner := from
+	if w.rng.Intn(6) == 0 { // the transaction is built as the source's but signed by another account's key
+		txSigner = hx.Pick(w.rng, srcs)
+	}
+	signer, order, mode := to.id, "ft", "ok"
+	sig := w.sign(to.eth, from.addr, to.addr)
+	switch w.rng.Intn(12) {
+	case 0:
+		order, mode = "tf", "swap"
+		sig = w.sign(to.eth, to.addr, from.addr)
+	case 1:
+		o := hx.Pick(w.rng, eths)
+		for o == to {
+			o = hx.Pick(w.rng, eths)
+		}
+		signer, mode = o.id, "other"
+		sig = w.sign(o.eth, from.addr, to.addr)
+	}
+	msg := &migratetypes.MsgMigrateAccount{From: from.addr.String(), To: common.BytesToAddress(to.addr).String(), Signature: sig}
+	bz, err := w.signedTx([]sdk.Msg{msg}, from.addr, txSigner.priv)
+	if err != nil {
+		w.out.Violate("harness: cannot build the migration transaction: " + err.Error())
+		return
+	}
+	fee := sdkmath.NewInt(1_000_000_000_000).MulRaw(8_000_000)
+	roles := w.openInvolvement(from.addr, to.addr)
+	role := w.roleHistory(from.id, to.id)
+	pf, pt := w.portfolio(from.addr), w.portfolio(to.addr)
+	totals := w.totals()
+	seqBefore := w.s.App.AccountKeeper.GetAccount(w.s.Ctx, from.addr).GetSequence()
+	res := w.endBlockTxs(dt, [][]byte{bz})
+	code, log := uint32(999), ""
+	if len(res) == 1 {
+		code, log = res[0].Code, res[0].Log
+	}
+	antePassed := w.s.App.AccountKeeper.GetAccount(w.s.Ctx, from.addr).GetSequence() != seqBefore
+	kindOf := "ok"
+	switch {
+	case code == 0:
+	case !antePassed && code == 18: // ErrInvalidRequest: baseapp's ValidateBasic, before the ante handler
+		kindOf = errKind(log)
+	case !antePassed:
+		kindOf = "err:ante"
+	default:
+		kindOf = errKind(log)
+	}
+	w.out.Count(fmt.Sprintf("txblock:tx-signed-by-source=%v,pair=%s=%s", txSigner == from, mode, kindOf))
+	for _, r := range roles {
+		w.out.Count("txblock-gov:" + r.who + "-" + r.role + "-" + r.status + "=" + kindOf)
+	}
+	w.emit(fmt.Sprintf("txblock %d %s %d %d %d %d %s", dt, fee, txSigner.id, from.id, to.id, signer, order), kindOf)
+	if strings.HasPrefix(kindOf, "err:other") || kindOf == "panic" {
+		w.out.Violate("migrate: unexpected failure kind of a migration transaction: " + kindOf)
+	}
+	w.invariants("after a block with a migration transaction")
+	w.consistency("after a block with a migration transaction")
+	if kindOf != "ok" {
+		return
+	}
+	// ---- monitors: an accepted migration transaction ------------------------------------------------------
+	if txSigner != from {
+		w.out.Violate("signature: a migration transaction not signed by the source's account key was accepted by FinalizeBlock")
+	}
+	if mode != "ok" {
+		w.out.Violate("signature: migration transaction accepted with pair signature mode " + mode + " (not the target key over prefix,from,to)")
+	}
+	if role != "" {
+		w.out.Violate("reuse: migration accepted although an address took part in an earlier migration (" + role + ")")
+	}
+	for _, r := range roles {
+		w.out.Violate(fmt.Sprintf("gov: migration accepted while %s is %s of a proposal still in its %s period (proposal %d)", r.who, r.role, r.status, r.id))
+	}
+	if len(pt.dels) > 0 || len(pt.ubds) > 0 || len(pt.reds) > 0 {
+		w.out.Violate("target: migration accepted although the target has staking records")
+	}
+	w.gone[from.id], w.gone[to.id] = true, true
+	w.hist = append(w.hist, migRec{from, to})
+	if got := w.recordSlots(from.addr, to.addr); got != "rec-from,rec-to,dir-from,"+"dir-to" {
+		w.out.Violate("record: after an accepted migration not every record slot of source and target is set (" + got + ")")
+	}
+	if m := w.mentions(from.addr); len(m) > 0 {
+		w.out.Violate("stale: a raw key or value under " + m[0] + " still mentions the source address after a migration transaction")
+	}
+	// the end blocker of the same block may already have paid matured entries to the target: the source must be empty, and
+	// the target must hold its own and the source's coins minus the fee, plus what matured
+	if af := w.portfolio(from.addr); !af.empty() {
+		w.out.Violate("moved: source still holds balances or staking records after a migration transaction")
+	}
+	_ = totals
+	w.out.Nontrivial(fmt.Sprintf("txblock-ok:%d,%d,%d,%d", len(pf.bal), len(pf.dels), len(pf.ubds), len(pf.reds)))
+}
+
 // opGenesisRoundTrip (only with VERIF_C14_GENESIS=1, see fixes/C14-genesis-import.md): the migrate module's state is exported
 // and imported again, as a chain restarted from an exported genesis does; the addresses already used in a migration must
 // still be marked
@@ -2082,7 +2201,11 @@ func (w *world) randomOp() {
 		if os.Getenv("VERIF_C14_GENESIS") == "1" && len(w.hist) > 0 && w.rng.Intn(3) == 0 {
 			w.opGenesisRoundTrip()
 		}
-		w.opMigrate()
+		if w.rng.Intn(4) == 0 {
+			w.opMigrateTx(hx.Pick(w.rng, []int64{1, 1, 7, 100, 300}))
+		} else {
+			w.opMigrate()
+		}
 	default:
 		w.opChain()
 	}
